@@ -10,10 +10,10 @@ pub fn prop() -> Prop {
     Prop {
         id: "C02",
         level: "model_checking",
-        rule: "values: every string of length <=2 (thorough <=3, and 4 over an 8-character core) over a 49-character alphabet (all C0 controls, DEL, quote, backslash, slash, U+0080, U+00FF, U+2028/9, U+D7FF, U+E000, U+FFFD, U+FFFF, U+10000, U+1F603, U+10FFFF, 'a') as a value, as a member name and inside an array; 26 boundary numbers; 17 computed numbers (results of arithmetic incl. overflow); ~90 containers of depth <=3 with 0/1/2 members and 18 array/object chains of depth 8..64; strings of 15..4097 characters with a special character first or last (as value, member name, element) and arrays/objects of 15..1025 members; x 3 styles x utf8 on/off x 4 row separators; each case = 2 runs (output fed back); non-trivial = a character outside ' '..'~', a number that is not a small integer, or a non-empty container; distinct by construction",
+        rule: "values: every string of length <=2 (thorough <=3, and 4 over an 8-character core) over a 49-character alphabet (all C0 controls, DEL, quote, backslash, slash, U+0080, U+00FF, U+2028/9, U+D7FF, U+E000, U+FFFD, U+FFFF, U+10000, U+1F603, U+10FFFF, 'a') as a value, as a member name and inside an array; 26 boundary numbers; 17 computed numbers (results of arithmetic incl. overflow); ~90 containers of depth <=3 with 0/1/2 members and 18 array/object chains of depth 8..64; strings of 15..4097 characters with a special character first or last (as value, member name, element) and arrays/objects of 15..1025 members; x 3 styles x utf8 on/off x 4 row separators; each case = 2 runs (output fed back); non-trivial = a character outside ' '..'~', a number that is not a small integer, or a non-empty container; distinct by construction; 4 inputs x 10 selection sets (rows built by jawk from selections, incl. selections that share a name, where every printed object must still have distinct member names)",
         explanation: "stdout is framed by the row separator and each row is read by the independent strict RFC 8259 reader and compared with the reference value; style relations (consise has no insignificant whitespace, one-line no line break, pretty = one element/member per line with indentation c*depth, all three equal after deleting insignificant whitespace) and the byte-for-byte fixpoint of a second run are checked on every case",
         assumptions: COMMON_ASSUMPTIONS.to_vec(),
-        guards: vec!["size-thresholds", "control-character", "astral-character", "pretty-nested", "computed-non-finite", "separator-without-newline", "utf8-on"],
+        guards: vec!["selections-sharing-a-name", "size-thresholds", "control-character", "astral-character", "pretty-nested", "computed-non-finite", "separator-without-newline", "utf8-on"],
         budget_s: (100, 2400),
         single_worker: false,
         run,
@@ -244,6 +244,11 @@ fn check_item(ctx: &mut Ctx, it: &Item) {
                         continue;
                     }
                 }
+                // an object whose text repeats a member name is not read back as one value by independent readers
+                if let Some((_, r)) = rows.iter().find(|(_, r)| repeats_a_name(r)) {
+                    fail(ctx, "row-repeats-a-member-name", "", "every object in a row has distinct member names".into(), format!("{} (stdout {:?})", to_text(r), crate::drive::trunc(&o.out_str(), 200)));
+                    continue;
+                }
                 // style clauses
                 let texts: Vec<Vec<u8>> = rows.iter().map(|(t, _)| t.to_vec()).collect();
                 let mut style_ok = true;
@@ -327,6 +332,14 @@ fn check_item(ctx: &mut Ctx, it: &Item) {
                 ctx.sample(|| serde_json::json!({"args": args, "input": it.input, "stdout": o.out_str()}));
             }
         }
+    }
+}
+
+fn repeats_a_name(v: &V) -> bool {
+    match v {
+        V::Obj(m) => m.iter().enumerate().any(|(i, (k, x))| m[..i].iter().any(|(k2, _)| k2 == k) || repeats_a_name(x)),
+        V::Arr(a) => a.iter().any(repeats_a_name),
+        _ => false,
     }
 }
 
@@ -505,4 +518,32 @@ fn run(ctx: &mut Ctx) {
         }
     }
     ctx.level_done("size-thresholds(strings-to-4097,containers-to-1025-members)");
+    // ---- rows built by selections (the printed row is an object made by jawk, not one it read), incl. selections sharing a name
+    let sel_inputs = ["{\"a\": 1, \"b\": \"x\", \"c\": [1, {\"a\": 2}]}", "{\"a\": 1} {\"b\": 2} {\"c\": 3}", "{\"b\": null, \"a\": {\"b\": \"\\u00e9\"}}", "[1, 2] 5 {\"a\": []}"];
+    let sel_sets: [&[&str]; 10] = [
+        &[".a=n"],
+        &[".a=n", ".b=m"],
+        &[".a=n", ".b=n"],
+        &[".b=n", ".a=n"],
+        &[".a", ".a"],
+        &[".a=n", ".b=m", ".c=n"],
+        &[".a=n", ".c=n", ".b=n"],
+        &[".=n", ".=n"],
+        &["(? (object? .) . (push [] .))=n", ".a=a", ".b=a"],
+        &["(.len)=n", "(stringify .)=n"],
+    ];
+    for (ii, input) in sel_inputs.iter().enumerate() {
+        for (si, set) in sel_sets.iter().enumerate() {
+            if !ctx.mine() {
+                continue;
+            }
+            if set.len() >= 2 {
+                ctx.guard("selections-sharing-a-name");
+            }
+            let it = Item { input: input.to_string(), args: set.iter().map(|s| format!("--select={s}")).collect(), expected: None, kind: "selected-row", nontrivial: true };
+            ctx.transition(&(ii, si, "selected"));
+            check_item(ctx, &it);
+        }
+    }
+    ctx.level_done("rows-built-by-selections");
 }
